@@ -359,7 +359,7 @@ func checkC16(w *World, r *Report) {
 			n, good := 0, true
 			ast.Inspect(fd.Body, func(x ast.Node) bool {
 				if ce, ok := x.(*ast.CallExpr); ok {
-					if c := calleeOf(p, ce); c != nil && strings.HasPrefix(c.Name(), "newInvalidValueError") {
+					if c := calleeOf(p, ce); c != nil && strings.HasPrefix(nm(c), "newInvalidValueError") {
 						n++
 						if len(ce.Args) == 0 || objOfIdent(p, ce.Args[0]) != path {
 							good = false
